@@ -35,6 +35,7 @@ class Mon:
         self.reads = 0
         self.max_loop_iters = 0
         self.state_hashes = set()
+        self.top_caches = []          # the cache object each top-level script ran on (run_tape entered outside any instruction)
 
     def problem(self, inv, detail):
         if len(self.problems) < 5:
@@ -258,6 +259,8 @@ def install():
                 return orig_run_tape(tape, stack, cache, additional_flags)
             finally:
                 m.depth -= 1
+        if m is not None and not m.frames:
+            m.top_caches.append(cache)
         if m is not None and m.frames:
             fr = m.frames[-1]
             if fr[0] == 'OP_LOOP':
@@ -301,15 +304,15 @@ def run_monitored(script, limits, cache=None, contracts=None, plugins=None, flag
     return mon, exc, list(stack.deque), rc
 
 
-def run_monitored_auth(scripts, limits, cache=None, horizon=200000):
+def run_monitored_auth(scripts, limits, cache=None, horizon=200000, contracts=None):
     """run_auth_scripts under the step monitor (wrappers on the op tables / run_tape / Tape.read; the VM makes
     its own Stack, so only instruction-level observations are available). returns (mon, verdict or exception)"""
     install()
     mon = Mon(limits, horizon)
     Mon.active = mon
     try:
-        v = F.run_auth_scripts(list(scripts), dict(cache or {}), stack_max_items=limits[0], stack_max_item_size=limits[1],
-                               callstack_limit=limits[2])
+        v = F.run_auth_scripts(list(scripts), dict(cache or {}), dict(contracts or {}), stack_max_items=limits[0],
+                               stack_max_item_size=limits[1], callstack_limit=limits[2])
     except BaseException as e:
         if isinstance(e, (KeyboardInterrupt, SystemExit)):
             Mon.active = None
